@@ -17,6 +17,11 @@ RULE = ('LLE: mixtures of 2-5 chemicals containing a partially miscible pair (wa
         'last call is at the judged point, within / just outside the cache tolerances (1e-3 K, 1e-5) or at another scale (the cache-hit branch), with the judged feed re-pooled over l / L, with chemicals absent in earlier calls '
         '(remembered coefficients must be dropped: clause history-reset), another top chemical or method per step; call forms P=, single_loop=True, update=False (returned K and phase fraction). SLE: solute anywhere in the package, '
         'a second solid-capable chemical holding solid and dissolved material, solvents at zero flow (pure solute inside a package), H= and P= forms, user activity coefficient with the ideal package, T at and next to Tm. '
+        'added in round 5 - SLE: the computed solubility observed where the solver RETURNS it (the value handed back by the solubility solve of the judged call), not only where it is applied to the rows, and judged against the rows '
+        '(clause sle:solubility/computed-returned; on every existing SLE case too); for ideal packages (Thermo(Gamma=Ideal...), thermo.ideal()) the eutectic solubility from the public chemical data with the user activity '
+        'coefficient as an independent bound (eutectic-model); case type sle3: ramps of 1-4 calls on one solver WITHOUT resetting the rows (other T relative to Tm, T / H specification, given / computed / boundary solubilities '
+        '0, 1, 1e-9, just enough to dissolve all, solvent amounts changed or removed, an absent package member added, activity coefficient changed between calls), every step judged and compared with a fresh solver from the same rows; '
+        'object kinds MultiStream.sle, Stream.sle (single-phase stream converted) and equilibrium.SLE on a MolarFlowIndexer (activity_coefficient by constructor); packages Dortmund / UNIFAC / ideal Gamma / IdealThermo. '
         'non-trivial = two non-empty liquid phases (LLE) / solute partly dissolved or a pure solute (SLE); distinct = hash of the case')
 MIN_NONTRIVIAL = {'quick': 150, 'thorough': 3000}
 ASSUMPTIONS = ['equal-activity bound (relative to the largest activity): 1e-3 for every method; larger deviations of the Gibbs-minimising methods are classified by mechanism (component at the starting midpoint / Gibbs energy within 1e-6 of the polished minimum / beyond it) and reported under those keys', 'labels l/L are compared up to a swap when no top chemical is named']
@@ -30,7 +35,11 @@ def required(tier):
             # coverage audit
             'method:differential evolution', 'history:cache-hit', 'history:last-call-same', 'history:last-call-within', 'history:last-call-outside', 'history:last-call-scaled', 'history:last-call-same-T-other-z', 'history:query(update=False)', 'history:re-pooled', 'history:chemical-set-changed',
             'history-reset', 'history:top-changed', 'history:method-switched', 'composition:wide', 'composition:water-free', 'composition:zero-flow-member', 'feed:pre-split', 'pre-split', 'form:P', 'form:single_loop',
-            'form:update=False', 'call-form', 'sle2', 'sle:spec=H', 'sle:P-given', 'sle:activity_coefficient', 'sle:solute-not-first', 'sle:second-solute-solid', 'sle:pure-in-package', 'sle:pure:next-to-Tm']
+            'form:update=False', 'call-form', 'sle2', 'sle:spec=H', 'sle:P-given', 'sle:activity_coefficient', 'sle:solute-not-first', 'sle:second-solute-solid', 'sle:pure-in-package', 'sle:pure:next-to-Tm',
+            # round 5
+            'sle:computed-returned', 'sle:computed-returned:ideal-package', 'sle:computed-returned:activity-model', 'sle:eutectic-model', 'sle:eutectic-model:activity_coefficient', 'sle3', 'sle3:ramp', 'sle3:pkg=default', 'sle3:pkg=unifac',
+            'sle3:pkg=ideal-gamma', 'sle3:pkg=ideal()', 'sle3:obj=multistream', 'sle3:obj=stream', 'sle3:obj=indexer', 'sle3:spec=H', 'sle3:given', 'sle3:given-boundary', 'sle3:history', 'sle3:computed-after-given', 'sle3:absent-member',
+            'sle3:act-changed', 'sle3:act-by-constructor', 'sle3:solvents-changed', 'sle3:member-added', 'sle3:no-reset', 'sle3:supersaturated-start']
 
 
 def thermo(ids, gamma=None):
@@ -321,6 +330,52 @@ def install_probe():
     SLE._vt_probe = True
 
 
+_SOLVED = {}
+
+
+def install_probe2():
+    """the other place where 'the solubility it computed' can be observed: the value the solver's solubility solve hands back to the call (SLE._solve_x), whether or not anything
+    was written to the rows while solving.  Missing helper -> no probe (the reach counter 'sle:computed-returned' then stays at zero and the run is inconclusive)."""
+    from thermosteam.equilibrium.sle import SLE
+    if getattr(SLE, '_vt_probe2', False): return True
+    orig = getattr(SLE, '_solve_x', None)
+    if orig is None: return False
+    def _solve_x(self, T):
+        x = orig(self, T)
+        try: _SOLVED['x'] = float(x); _SOLVED['T'] = float(T); _SOLVED['n'] = _SOLVED.get('n', 0) + 1
+        except Exception: pass
+        return x
+    SLE._solve_x = _solve_x
+    SLE._vt_probe2 = True
+    return True
+
+
+def eutectic_bound(chem, T, gamma):
+    """eutectic (Schroeder - van Laar) solubility from the public data of the chemical: what an ideal package computes (SLE documents activity_coefficient for exactly that case)"""
+    from chemicals import solubility_eutectic
+    return float(solubility_eutectic(T, chem.Tm, chem.Hfus, chem.Cn.l(T), chem.Cn.s(T), gamma))
+
+
+def judge_returned(rec, solved, xl, solid, x_max, pkgclass, tail, what):
+    """never more dissolved than the solubility the call computed (as returned by its solubility solve) allows, nor more than is present"""
+    sol = solved.get('x')
+    if sol is None or sol != sol: return
+    rec.hit('sle:computed-returned'); rec.hit('sle:computed-returned:' + pkgclass)
+    rec.check(xl <= max(sol, 0.0) + 1e-9 or (solid == 0 and xl <= x_max + 1e-12), 'sle:solubility', f'computed-returned/{pkgclass}{tail}',
+              f'{what}: liquid mole fraction of the solute {xl!r} exceeds the solubility {sol!r} the call computed (solid left: {solid!r}; all dissolved would be {x_max!r})', residual=max(0.0, xl - sol))
+
+
+def judge_eutectic(rec, chem, T, act, xl, solid, x_max, tail, what):
+    """ideal package, temperature given: the computed solubility is the eutectic solubility with the user's activity coefficient (1 if none)"""
+    lim = eutectic_bound(chem, T, act or 1.)
+    if lim != lim: return
+    rec.hit('sle:eutectic-model')
+    if act: rec.hit('sle:eutectic-model:activity_coefficient')
+    rec.check(xl <= max(lim, 0.0) * (1 + 1e-9) + 1e-12 or (solid == 0 and xl <= x_max + 1e-12), 'sle:solubility', f'eutectic-model/ideal-package{tail}' + ('/activity_coefficient' if act else ''),
+              f'{what}: liquid mole fraction of the solute {xl!r} exceeds the eutectic solubility {lim!r} of the ideal package at T={T!r} (activity coefficient {act or 1.}; solid left: {solid!r}; all dissolved would be {x_max!r})',
+              residual=max(0.0, xl - lim))
+
+
 def run_sle(case, rec):
     ids = case['ids']; th = thermo(ids, case.get('gamma')); tmo.settings.set_thermo(th)
     solute = ids[0]; T = case['T']
@@ -349,8 +404,9 @@ def run_sle(case, rec):
         if case['prior']: s.sle(solute, T=min(T + 15, 450))       # an earlier call on the same solver
         if case.get('shist') or case['prior']: start(s)
         install_probe(); _APPLIED.clear()
+        install_probe2(); _SOLVED.clear()
         s.sle(solute, T=T, **kw)
-        applied = dict(_APPLIED)
+        applied = dict(_APPLIED); solved = dict(_SOLVED)
     except Exception as e:
         if numeric_failure(e): rec.refuse(f'sle refused: {type(e).__name__}'); return
         rec.exception('sle', e, what=f'sle on {ids} (solubility={case["solubility"]}) raised {type(e).__name__}: {str(e)[:140]}'); return
@@ -388,6 +444,12 @@ def run_sle(case, rec):
                   'given' if kw else 'computed', f'liquid mole fraction of {solute} {xl!r} exceeds the solubility {sol!r} although solid remains ({after["s"][j]})', residual=max(0.0, xl - sol))
         if after['s'][j] > 0 and sol > 0:
             rec.check(abs(xl - sol) <= 1e-9, 'sle:solubility', 'saturated', f'solid {solute} remains but the liquid mole fraction {xl!r} is not the solubility {sol!r} the solver applied', residual=abs(xl - sol))
+    if not kw:
+        # round 5: the solubility as the call's own solve returned it, and for the ideal package the eutectic solubility
+        x_max = present / (present + sum(case['flows'][1:]))
+        hs = '/after-earlier-calls' if (case.get('shist') or case['prior']) else ''
+        judge_returned(rec, solved, xl, after['s'][j], x_max, 'ideal-package' if case.get('gamma') == 'ideal' else 'activity-model', hs, f'sle({solute}, T={T}) on {ids}')
+        if case.get('gamma') == 'ideal': judge_eutectic(rec, th.chemicals[solute], T, None, xl, after['s'][j], x_max, hs, f'sle({solute}, T={T}) on {ids}')
     if 0 < after['l'][j] < present: rec.mark_nontrivial(case_hash(case))
     elif after['l'][j] in (0, present): rec.mark_nontrivial(case_hash((case['ids'], 'edge', round(T))))
 
@@ -506,14 +568,16 @@ def run_sle2(case, rec):
             sle = s.sle
             if act: sle.activity_coefficient = act
             install_probe(); _APPLIED.clear()
+            install_probe2(); _SOLVED.clear()
             sle(solute, H=target, **kw)
-            applied = dict(_APPLIED)
+            applied = dict(_APPLIED); solved = dict(_SOLVED)
         else:
             sle = s.sle
             if act: sle.activity_coefficient = act
             install_probe(); _APPLIED.clear()
+            install_probe2(); _SOLVED.clear()
             sle(solute, T=T, **kw)
-            applied = dict(_APPLIED)
+            applied = dict(_APPLIED); solved = dict(_SOLVED)
     except Exception as e:
         if numeric_failure(e): rec.refuse(f'sle refused: {type(e).__name__}'); return
         rec.exception('sle', e, what=f'sle({solute}, {case["spec"]}=..., {kw}) on {ids} raised {type(e).__name__}: {str(e)[:140]}'); return
@@ -573,8 +637,199 @@ def run_sle2(case, rec):
                   f'liquid mole fraction of {solute} {xl!r} exceeds the solubility {sol!r} although solid remains ({after["s"][j]}) (ids={ids}, T={Tend!r})', residual=max(0.0, xl - sol))
         if after['s'][j] > 0 and sol > 0 and case['spec'] == 'T' and rest > 0:      # (without any other liquid there is nothing to dissolve in)
             rec.check(abs(xl - sol) <= 1e-6, 'sle:solubility', 'saturated/' + tag, f'solid {solute} remains but the liquid mole fraction {xl!r} is not the solubility {sol!r} (ids={ids})', residual=abs(xl - sol))
+    if not given:
+        # round 5: the solubility as the call's own solve returned it (with H given: that of the last temperature iterate, which is what the rows were last written from), and for the ideal package at a given T the eutectic solubility
+        rest_ = liq - after['l'][j]; x_max = present / (present + rest_)
+        tl = '/' + tag + ('/H-spec' if case['spec'] == 'H' else '')
+        judge_returned(rec, solved, xl, after['s'][j], x_max, 'ideal-package' if case.get('gamma') == 'ideal' else 'activity-model', tl, f'sle({solute}, {case["spec"]} given) on {ids}')
+        if case.get('gamma') == 'ideal' and case['spec'] == 'T': judge_eutectic(rec, chem, Tend, act, xl, after['s'][j], x_max, '/' + tag, f'sle({solute}, T={Tend!r}) on {ids}')
     if 0 < after['l'][j] < present: rec.mark_nontrivial(case_hash(case))
     else: rec.mark_nontrivial(case_hash((case['ids'], 'edge', round(T))))
+
+
+SOLVENTS3 = ('Water', 'Ethanol', 'Methanol', 'Octane', 'Octanol', 'Acetone')
+PKGS3 = ('default', 'unifac', 'ideal-gamma', 'ideal()')
+
+
+def thermo3(ids, pkg):
+    """the property packages a user can hand to a solid-liquid calculation: the default (Dortmund) and the UNIFAC activity model, Thermo(..., Gamma=IdealActivityCoefficients), thermo.ideal() (IdealThermo)"""
+    if pkg == 'default': return thermo(ids)
+    if pkg == 'ideal-gamma': return thermo(ids, 'ideal')
+    k = (tuple(ids), 'pkg3:' + pkg)
+    if k not in _th:
+        if pkg == 'ideal()': _th[k] = thermo(ids).ideal()
+        else: _th[k] = tmo.Thermo(tmo.Chemicals(list(ids), cache=True), Gamma=tmo.equilibrium.UNIFACActivityCoefficients)
+    return _th[k]
+
+
+def gen_sle3(rng):
+    """round 5: ramps of calls on one solver without resetting the rows, on every object kind that offers the calculation and every kind of property package, each step judged on what the
+    call computed / was given (and for ideal packages on the eutectic solubility) and compared with a fresh solver started from the same rows"""
+    a = rng.choice(SOLUTES)
+    solv = rng.sample(SOLVENTS3, rng.randrange(1, 4))
+    absent = rng.sample([x for x in SOLVENTS3 if x not in solv], rng.choice([0, 0, 1, 2]))
+    members = [a] + solv + absent
+    perm = list(range(len(members))); rng.shuffle(perm)
+    pkg = rng.choice(['default', 'default', 'unifac', 'ideal-gamma', 'ideal-gamma', 'ideal()', 'ideal()'])
+    ideal = pkg in ('ideal-gamma', 'ideal()')
+    steps = []
+    for k in range(rng.choice([1, 1, 2, 3, 4])):
+        st = {'T': round(rng.uniform(250, 450), 2), 'dTm': (-round(rng.uniform(0.5, 60), 2) if rng.random() < 0.6 else None), 'spec': rng.choice(['T', 'T', 'T', 'H']), 'hfrac': round(rng.uniform(-0.2, 1.2), 4),
+              'sol': None, 'mult': None, 'add': None, 'act': 'keep', 'reset': rng.random() < 0.3}
+        r = rng.random()
+        if r < 0.2: st['sol'] = round(rng.random() * 0.6, 4)
+        elif r < 0.32: st['sol'] = rng.choice([0.0, 1.0, 1e-9, 'all', 'all-', 'all+'])      # boundary values: nothing / everything soluble, (just short of / beyond) what dissolves all of the solute
+        if k and rng.random() < 0.4: st['mult'] = [rng.choice([0.0, 1.0, round(rng.uniform(0.2, 3), 3), round(rng.uniform(0.2, 3), 3)]) for _ in solv]
+        if k and absent and rng.random() < 0.2: st['add'] = [rng.choice(absent), round(10 ** rng.uniform(-2, 2), 4)]
+        if ideal and rng.random() < 0.35: st['act'] = rng.choice([None, round(rng.uniform(0.2, 5), 3)])
+        steps.append(st)
+    if rng.random() < 0.12:
+        # one and the same feed: solubility computed, then given, then computed again (what the solver keeps from the given-solubility call must not enter the next solve)
+        while len(steps) < 3: steps.append(dict(steps[-1]))
+        for q, st in enumerate(steps[:3]):
+            st['mult'] = None; st['add'] = None; st['sol'] = round(rng.random() * 0.6, 4) if q == 1 else None
+    return {'t': 'sle3', 'ids': [members[k] for k in perm], 'solute': a, 'solv': solv, 'flows': [round(10 ** rng.uniform(-2, 2), 4) for _ in [a] + solv], 'dist': rng.choice([0.0, 0.0, 1.0, round(rng.random(), 3)]),
+            'pkg': pkg, 'obj': rng.choice(['multistream', 'multistream', 'stream', 'indexer']), 'act': (rng.choice([None, round(rng.uniform(0.2, 5), 3)]) if ideal else None), 'act_ctor': rng.random() < 0.5, 'steps': steps}
+
+
+def rows_of(imol):
+    return {p: imol[p].to_array().copy() for p in ('s', 'l')}
+
+
+def run_sle3(case, rec):
+    ids = case['ids']; pkg = case['pkg']; kind = case['obj']
+    th = thermo3(ids, pkg); tmo.settings.set_thermo(th)
+    ideal = pkg in ('ideal-gamma', 'ideal()')
+    solute = case['solute']; j = ids.index(solute); solv = case['solv']
+    chem = th.chemicals[solute]; Tm = chem.Tm
+    m = case['flows'][0]; base = dict(zip(solv, case['flows'][1:]))
+    cur = dict(base)
+    act = case['act']
+    def Tof(st):
+        return float(min(450.0, max(250.0, Tm + st['dTm']))) if st['dTm'] is not None else st['T']
+    T0 = Tof(case['steps'][0])
+    # the object that offers the calculation
+    if kind == 'indexer':
+        imol = tmo.indexer.MolarFlowIndexer(phases=('s', 'l'), chemicals=th.chemicals)
+        tc = tmo.ThermalCondition(T0, 101325.)
+        if act and case['act_ctor']: sle = tmo.equilibrium.SLE(imol, tc, th, activity_coefficient=act); rec.hit('sle3:act-by-constructor')
+        else:
+            sle = tmo.equilibrium.SLE(imol, tc, th)
+            if act: sle.activity_coefficient = act
+    else:
+        if kind == 'stream':
+            s = tmo.Stream(None, phase='l', T=T0, thermo=th)
+            s.imol[solute] = m
+            for i, v in cur.items(): s.imol[i] = v
+        else: s = tmo.MultiStream(None, phases=('s', 'l'), T=T0, thermo=th)
+        sle = s.sle          # (a single-phase stream becomes a two-phase one here)
+        imol = s.imol; tc = s._thermal_condition
+        if act: sle.activity_coefficient = act
+    def write_others(im):
+        for i in ids:
+            if i != solute: im['l', i] = cur.get(i, 0.0)
+    def write_solute(im):
+        im['s', solute] = m * case['dist']; im['l', solute] = m - m * case['dist']
+    def helper(rw, T):
+        h = tmo.MultiStream(None, phases=('s', 'l'), T=T, thermo=th)
+        for p_ in ('s', 'l'):
+            for i, v in zip(ids, rw[p_]):
+                if v: h.imol[p_, i] = float(v)
+        return h
+    install_probe(); install_probe2()
+    rec.hit('sle3'); rec.hit('sle3:pkg=' + pkg); rec.hit('sle3:obj=' + kind)
+    if len(case['steps']) > 1: rec.hit('sle3:ramp')
+    given_before = False; computed_before = False
+    nontrivial = False
+    for k, st in enumerate(case['steps']):
+        if st['mult']:
+            for i, f_ in zip(solv, st['mult']): cur[i] = base[i] * f_
+            rec.hit('sle3:solvents-changed')
+        if st['add']: cur[st['add'][0]] = st['add'][1]; rec.hit('sle3:member-added')
+        write_others(imol)
+        if k == 0 or st['reset']: write_solute(imol)
+        else: rec.hit('sle3:no-reset')
+        if st['act'] != 'keep':
+            if st['act'] != act: rec.hit('sle3:act-changed')
+            act = st['act']; sle.activity_coefficient = act
+        T = Tof(st); tc.T = T
+        before = rows_of(imol)
+        present = float(before['s'][j] + before['l'][j])
+        rest0 = float(before['l'].sum() - before['l'][j])
+        pure = rest0 == 0
+        absent_member = any(before['l'][q] + before['s'][q] == 0 for q in range(len(ids)))
+        if absent_member: rec.hit('sle3:absent-member')
+        x_all = present / (present + rest0)       # the mole fraction at which all of the solute is dissolved
+        sol = st['sol']; boundary = False
+        if sol is not None and not pure:
+            if isinstance(sol, str): sol = {'all': x_all, 'all-': x_all * (1 - 1e-6), 'all+': min(1.0, x_all * (1 + 1e-6))}[sol]; boundary = True
+            elif sol in (0.0, 1.0, 1e-9): boundary = True
+            kw = {'solubility': sol}
+        else: kw = {}
+        given = bool(kw)
+        spec = st['spec']
+        if before['l'][j] / (before['l'].sum() or 1.0) > 0 and before['s'][j] == 0 and T < Tm: rec.hit('sle3:supersaturated-start')     # (everything dissolved below the melting point: the call has to precipitate)
+        try:
+            if spec == 'H':
+                lo = helper(before, T); lo.imol['s', solute] = present; lo.imol['l', solute] = 0.0
+                hi = helper(before, T); hi.imol['l', solute] = present; hi.imol['s', solute] = 0.0
+                target = lo.H + st['hfrac'] * (hi.H - lo.H)
+                ckw = dict(kw, H=target)
+            else: ckw = dict(kw, T=T)
+            _APPLIED.clear(); _SOLVED.clear()
+            sle(solute, **ckw)
+            solved = dict(_SOLVED)
+        except Exception as e:
+            if numeric_failure(e): rec.refuse(f'sle3 refused: {type(e).__name__}'); return
+            rec.exception('sle', e, what=f'sle({solute}, {spec} given, {kw}) on {ids} ({pkg}, {kind}, step {k}) raised {type(e).__name__}: {str(e)[:140]}'); return
+        after = rows_of(imol)
+        Tend = float(tc.T)
+        if spec == 'H': rec.hit('sle3:spec=H')
+        what = f'sle({solute}, {"T=" + repr(T) if spec == "T" else "H given"}{", solubility=" + repr(sol) if given else ""}) on {ids} [{pkg}, {kind}, call {k + 1} of {len(case["steps"])}, activity_coefficient={act}]'
+        others_same = all(np.array_equal(np.delete(after[p_], j), np.delete(before[p_], j)) for p_ in ('s', 'l'))
+        rec.check(others_same, 'sle:solute-only', f'rows/ramp/{kind}', f'{what} changed chemicals other than the solute: before {before} after {after}')
+        tot = after['s'][j] + after['l'][j]
+        rec.check(abs(tot - present) <= 1e-12 * present and after['s'][j] >= 0 and after['l'][j] >= 0, 'sle:solute-only', f'solute-total/ramp/{kind}', f'{what}: solute total changed {present!r} -> {tot!r} (s {after["s"][j]}, l {after["l"][j]})')
+        if pure:
+            if spec == 'T' and T != Tm:
+                if T > Tm: rec.check(abs(after['l'][j] - present) <= 1e-12 * present and after['s'][j] == 0, 'sle:pure', f'above-Tm/ramp/{kind}', f'{what}: pure solute at T={T!r} > Tm={Tm!r}: liquid {after["l"][j]}, solid {after["s"][j]}')
+                else: rec.check(abs(after['s'][j] - present) <= 1e-12 * present and after['l'][j] == 0, 'sle:pure', f'below-Tm/ramp/{kind}', f'{what}: pure solute at T={T!r} < Tm={Tm!r}: liquid {after["l"][j]}, solid {after["s"][j]}')
+            nontrivial = True
+        else:
+            liq = after['l'].sum()
+            xl = after['l'][j] / liq if liq else 0.0
+            solid = after['s'][j]
+            hs = '/H-spec' if spec == 'H' else ''
+            if given:
+                rec.hit('sle3:given')
+                if boundary: rec.hit('sle3:given-boundary')
+                rec.check(xl <= max(sol, 0.0) + 1e-9 or (solid == 0 and xl <= x_all + 1e-12), 'sle:solubility', f'given/ramp/{kind}' + ('/boundary-value' if boundary else '') + hs,
+                          f'{what}: liquid mole fraction of the solute {xl!r} exceeds the given solubility {sol!r} (solid left: {solid!r}; all dissolved would be {x_all!r})', residual=max(0.0, xl - sol))
+                given_before = True
+            else:
+                judge_returned(rec, solved, xl, solid, x_all, 'ideal-package' if ideal else 'activity-model', f'/ramp/pkg={pkg}/{kind}' + hs, what)
+                if ideal and spec == 'T': judge_eutectic(rec, chem, T, act, xl, solid, x_all, f'/ramp/pkg={pkg}/{kind}', what)
+                if given_before: rec.hit('sle3:computed-after-given')
+            if 0 < after['l'][j] < present: nontrivial = True
+        if k:
+            # the same call by a fresh solver on a fresh stream holding the same rows: what the solver remembers from its earlier calls must not matter
+            try:
+                f = helper(before, T)
+                fs = f.sle
+                if act: fs.activity_coefficient = act
+                fs(solute, **ckw)
+                rf = rows_of(f.imol)
+                dev = max(float(np.abs(rf[p_] - after[p_]).max()) for p_ in ('s', 'l')) / max(present, 1e-300)
+                rec.hit('sle3:history')
+                hk = ('given' if given else 'computed') + (f'/{"ideal-package" if ideal else "activity-model"}' if not given else '') + hs
+                if not given and given_before: hk += '/after-given-solubility' + ('/package-member-absent' if absent_member else '')
+                rec.check(dev <= 1e-7, 'sle:history', 'ramp/' + hk, f'{what} after {k} earlier calls on the same solver differs from a fresh solver on the same rows by {dev:.3g} of the solute: '
+                          f's/l = {after["s"][j]!r}/{after["l"][j]!r} vs fresh {rf["s"][j]!r}/{rf["l"][j]!r} (steps: {case["steps"][:k + 1]})', residual=dev)
+            except Exception as e:
+                if not numeric_failure(e): raise
+                rec.refuse('sle3: fresh solver refused')
+        if not given: computed_before = True
+    if nontrivial: rec.mark_nontrivial(case_hash(case))
 
 
 def run_case(case, rec):
@@ -582,7 +837,7 @@ def run_case(case, rec):
     with warnings.catch_warnings():
         warnings.simplefilter('ignore')
         try:
-            (run_sle if case['t'] == 'sle' else run_sle2 if case['t'] == 'sle2' else run_lle)(case, rec)
+            (run_sle if case['t'] == 'sle' else run_sle2 if case['t'] == 'sle2' else run_sle3 if case['t'] == 'sle3' else run_lle)(case, rec)
         except Exception as e:
             rec.exception('harness', e, what=f'harness error: {type(e).__name__}: {e}')
 
@@ -611,3 +866,5 @@ def run(rec, rng, tier, shard, nshards):
         run_case(gen_sle(rng), rec)
     for i in range(700 if tier == 'quick' else 9000):
         run_case(gen_sle2(rng), rec)
+    for i in range(450 if tier == 'quick' else 6000):
+        run_case(gen_sle3(rng), rec)
